@@ -14,7 +14,7 @@ use std::sync::Arc;
 pub const META: Meta = Meta {
     id: "C19",
     level: "exploration",
-    rule: "Exhaustive: every path of 1-4 segments (thorough: 1-5) over {a, sub, .., ., ..., ..a, a.., empty, secret, link} joined by '/', with and without a leading and a trailing slash, x Accept-Encoding {absent, gzip, identity, gzip;q=0, *} x auto_gzip on/off, against a generated tree (plain files incl. dot-heavy names, a.gz sibling, b + b.gz/ directory, c.gz without c, sub/ with a, a.gz and .gz, sub.gz, a symlink to a secret file outside the base, .gz siblings that are symlinks to a character device, to a directory, and dangling); NUL injected at every byte position of every path. Oracle: reference path validator written from the statement + std::fs on the same tree (device/inode identity or same io::ErrorKind), reference gzip negotiation. Non-trivial = accepted path that opens a file with a dot-only-looking segment or a .gz decision involved, or a rejected path; distinct by (path, Accept-Encoding, auto_gzip).",
+    rule: "Exhaustive: every path of 1-4 segments (thorough: 1-5) over {a, sub, .., ., ..., ..a, a.., empty, secret, link} joined by '/', with and without a leading and a trailing slash, x Accept-Encoding {absent, gzip, identity, gzip;q=0, *} x auto_gzip on/off, against a generated tree (plain files incl. dot-heavy names, a.gz sibling, b + b.gz/ directory, c.gz without c, sub/ with a, a.gz and .gz, sub.gz, a symlink to a secret file outside the base, .gz siblings that are symlinks to a character device, to a directory, and dangling); NUL injected at every byte position of every path; path length: './' repeated in front of 15 existing and missing names for every total length 4070..=4110 (around PATH_MAX), 8192 and 70000 bytes, and segments of 254-257 bytes (for paths over 1000 bytes the oracle is openat relative to the base instead of std::fs on the joined path). Oracle: reference path validator written from the statement + std::fs on the same tree (device/inode identity or same io::ErrorKind), reference gzip negotiation. Non-trivial = accepted path that opens a file with a dot-only-looking segment or a .gz decision involved, or a rejected path; distinct by (path, Accept-Encoding, auto_gzip).",
     assumptions: &[
         "what the empty path names is ambiguous (openat(\"\") vs. the directory itself): it is checked for containment only",
         "symlinks are followed, as documented; the symlink in the tree is the only way to the file outside the base",
@@ -78,6 +78,28 @@ pub fn make_tree(tag: &str) -> Tree {
     }
 }
 
+/// What the operating system says about `rel` relative to the directory `base` (openat: the base's
+/// own path length does not count against PATH_MAX). Used for very long paths, where
+/// `std::fs::File::open(base + "/" + rel)` fails for a reason the statement does not name.
+fn os_open_relative(base: &str, rel: &str) -> std::io::Result<std::fs::Metadata> {
+    use std::os::fd::FromRawFd;
+    let cbase = std::ffi::CString::new(base).expect("base");
+    let crel = std::ffi::CString::new(rel).map_err(|_| std::io::Error::from(std::io::ErrorKind::InvalidInput))?;
+    unsafe {
+        let dfd = libc::open(cbase.as_ptr(), libc::O_RDONLY | libc::O_DIRECTORY | libc::O_CLOEXEC);
+        if dfd < 0 {
+            return Err(std::io::Error::last_os_error());
+        }
+        let fd = libc::openat(dfd, crel.as_ptr(), libc::O_RDONLY | libc::O_CLOEXEC);
+        let err = std::io::Error::last_os_error();
+        libc::close(dfd);
+        if fd < 0 {
+            return Err(err);
+        }
+        std::fs::File::from_raw_fd(fd).metadata()
+    }
+}
+
 fn rejected_by_statement(p: &str) -> bool {
     p.contains('\0') || p.starts_with('/') || p.split('/').any(|s| s == "..")
 }
@@ -121,11 +143,13 @@ pub fn check(rt: &tokio::runtime::Runtime, tree: &Tree, dirs: &(Arc<FsDir>, Arc<
         return Ok(());
     }
     let full = format!("{}/{}", tree.base, c.path);
+    let long = c.path.len() > 1000;
     let gz = c.auto_gzip && prefers_gzip(&c.accept_encoding);
     let mut expect_gz_node: Option<(u64, u64)> = None;
     let mut expect_err: Option<std::io::ErrorKind> = None;
     if gz {
-        match std::fs::metadata(format!("{full}.gz")) {
+        let sibling = if long { os_open_relative(&tree.base, &format!("{}.gz", c.path)) } else { std::fs::metadata(format!("{full}.gz")) };
+        match sibling {
             Ok(md) if !md.is_dir() => expect_gz_node = Some((md.dev(), md.ino())),
             Ok(_) => {}
             Err(e) if e.kind() == std::io::ErrorKind::NotFound => {}
@@ -154,7 +178,8 @@ pub fn check(rt: &tokio::runtime::Runtime, tree: &Tree, dirs: &(Arc<FsDir>, Arc<
         ensure!(matches!(&got, Err(e) if e.kind() == k), "gz-lookup-error-kind", "looking up the .gz sibling fails with {:?}, got {}; {what}", k, describe(&got));
         label = "gz-lookup-error";
     } else {
-        match std::fs::File::open(&full).and_then(|f| f.metadata()) {
+        let plain = if long { os_open_relative(&tree.base, &c.path) } else { std::fs::File::open(&full).and_then(|f| f.metadata()) };
+        match plain {
             Ok(md) => match &got {
                 Ok(n) => {
                     ensure!(
@@ -167,7 +192,7 @@ pub fn check(rt: &tokio::runtime::Runtime, tree: &Tree, dirs: &(Arc<FsDir>, Arc<
                     );
                     ensure!(n.encoding().is_none(), "encoding-claimed-without-substitution", "encoding() is {:?} although the plain file was opened; {what}", n.encoding());
                 }
-                Err(_) => return fail("valid-path-refused", format!("std::fs opens the path but get returned {}; {what}", describe(&got))),
+                Err(_) => return fail("valid-path-refused", format!("opening the path succeeds but get returned {}; {what}", describe(&got))),
             },
             Err(e) => {
                 ensure!(matches!(&got, Err(g) if g.kind() == e.kind()), "error-kind-differs", "std::fs fails with {:?}, got {}; {what}", e.kind(), describe(&got));
@@ -268,6 +293,45 @@ pub fn run(cx: &Cx) -> Acc {
                             acc.run_case(cx, "paths", &c, |acc| check(&rt, &tree, &dirs, &c, acc));
                         }
                     }
+                }
+            }
+        }
+        rt.shutdown_background();
+    }));
+    // Path *length*: "./" repeated up to PATH_MAX and beyond in front of existing and missing names,
+    // and single segments around NAME_MAX. The operating system's own answer (openat relative to
+    // the base) is the oracle; a path that is too long must fail the way opening it fails.
+    let tails: Vec<&str> = vec!["a", "ab", "aXXXXXX", "sub/a", "sub/aXXXXXXX", "..a", "..aXXXXX", "a..", "...", "c", "cXXXX", "missing", "b", "bXXXXXX", "sub/./a"];
+    acc.merge(par_units(cx, "long-paths", &tails, true, "'./' x k + tail for every total length 4070..=4110 (and k = 100, 1000), 2 Accept-Encoding values x auto_gzip; segments of 254-257 bytes", |cx, tail, acc| {
+        let tree = make_tree(&format!("c19l-{}", fingerprint(tail)));
+        let rt = tokio::runtime::Builder::new_multi_thread().worker_threads(1).max_blocking_threads(2).build().expect("runtime");
+        let dirs = (FsDir::builder().auto_gzip(true).for_path(&tree.base).unwrap(), FsDir::builder().auto_gzip(false).for_path(&tree.base).unwrap());
+        let mut paths: Vec<String> = Vec::new();
+        for total in (4070usize..=4110).chain([200 + tail.len(), 2000 + tail.len(), 8192, 70_000]) {
+            if total < tail.len() {
+                continue;
+            }
+            let pad = total - tail.len();
+            // "./" pairs, plus one "/" more when the padding is odd ("a//b" names what "a/b" names)
+            let mut p = "./".repeat(pad / 2);
+            if pad % 2 == 1 {
+                p.push('/');
+                if p.starts_with('/') {
+                    continue;
+                }
+            }
+            p.push_str(tail);
+            paths.push(p);
+        }
+        for n in [254usize, 255, 256, 257] {
+            paths.push(format!("{}{}", "n".repeat(n - tail.len().min(n)), &tail[..tail.len().min(n)]));
+            paths.push(format!("sub/{}", "n".repeat(n)));
+        }
+        for path in paths {
+            for ae in [None, Some("gzip")] {
+                for auto_gzip in [true, false] {
+                    let c = Case { path: path.clone(), accept_encoding: ae.map(|s| s.to_string()), auto_gzip };
+                    acc.run_case(cx, "long-paths", &c, |acc| check(&rt, &tree, &dirs, &c, acc));
                 }
             }
         }
